@@ -323,6 +323,51 @@ def ops_table(ws):
 
     T["from_ww3"] = native_ww3
     T["from_ncswan"] = native_ncswan
+
+    def native_wwm(named):
+        def f(ds, rng):
+            from wavespectra.input.wwm import from_wwm
+
+            nf, nd = ds.sizes["freq"], ds.sizes["dir"]
+            nat = xr.Dataset({"AC": (("ocean_time", "nbstation", "nfreq", "ndir"), np.array(ds.efth.values)),
+                              "lon": (("nbstation",), np.array(ds.lon.values)), "lat": (("nbstation",), np.array(ds.lat.values)),
+                              "DEP": (("ocean_time", "nbstation"), np.array(ds.dpt.values)),
+                              "Uwind": (("ocean_time", "nbstation"), np.array(ds.wspd.values)),
+                              "Vwind": (("ocean_time", "nbstation"), np.array(ds.wspd.values) * 0.25),
+                              "SPSIG": (("nfreq",), 2 * np.pi * np.asarray(ds.freq.values, dtype=float)),
+                              "SPDIR": (("ndir",), np.radians(np.asarray(ds.dir.values, dtype=float)))},
+                             coords={"ocean_time": ds.time.values}, attrs={"src": "wwm"})
+            if named:
+                # the file was already renamed to the wavespectra names (the reader tolerates that: nothing is left to rename)
+                from wavespectra.input import wwm as m_wwm
+
+                ren = {k: v for k, v in m_wwm.MAPPING.items() if k != v and (k in nat.variables or k in nat.dims)}
+                nat = nat.rename(ren).copy(deep=True)
+            return (lambda: from_wwm(nat)), [nat]
+        return f
+
+    T["from_wwm"] = native_wwm(False)
+    T["from_wwm(already wavespectra names)"] = native_wwm(True)
+
+    def plot_kwargs(ds, rng):
+        # keyword dictionaries handed to the plotting accessor (polar axes defaults are merged into a copy, not into the caller's)
+        import matplotlib
+
+        matplotlib.use("Agg")
+        import matplotlib.pyplot as plt
+
+        skw = {"facecolor": "w"}
+        ckw = {"shrink": 0.5}
+        da = ds.efth.isel(time=0, site=0)
+
+        def call():
+            try:
+                return da.spec.plot(subplot_kws=skw, cbar_kwargs=ckw) and None
+            finally:
+                plt.close("all")
+        return call, [skw, ckw, da]
+
+    T["plot(subplot_kws, cbar_kwargs)"] = plot_kwargs
     T["read_dataset(wavespectra)"] = lambda ds, rng: ((lambda: read_dataset(ds)), [])
     tmp = BUILD / "tmp" / f"c17_{os.getpid()}"
 
